@@ -12,9 +12,9 @@ package c19
 import (
 	"fmt"
 	"iter"
+	"reflect"
 	"sort"
 	"strings"
-	"reflect"
 	"sync"
 	"sync/atomic"
 	"testing"
@@ -337,6 +337,18 @@ func (k *checker) took(d time.Duration) {
 	}
 }
 
+// verdict tells whether a call that did not return was decided deterministically (a loop-tick budget was exceeded:
+// site names the loop) or only by the wall-clock safety net. The latter is not a verdict - on an overloaded
+// machine a terminating call can be slow - and is recorded as a cap (exhaustive=false), never as a violation.
+func (k *checker) verdict(site string, what string) bool {
+	if site != "" {
+		return true
+	}
+	k.r.Add("calls_given_up_by_the_wall_clock_safety_net_without_a_verdict", 1)
+	k.r.Cap("a guarded call (" + what + ") did not return within the wall-clock safety net and no loop-tick budget was exceeded: inconclusive, the cases of its class were not decided")
+	return false
+}
+
 func (k *checker) skipped(cls string) {
 	k.r.Add("cases_not_run_because_one_of_their_class_already_hung", 1)
 	k.r.Cap("configurations of class " + cls + " were not run after the first one of that class did not return (an abandoned construction spins on a core until the process exits)")
@@ -390,6 +402,9 @@ func (k *checker) evalBuild(c Case, deferSuspects bool) {
 	o := k.build(c, c.RF)
 	if o.hung {
 		k.markHung(cls)
+		if !k.verdict(o.site, "NewMultiHashring") {
+			return
+		}
 		r.Add("constructions_that_did_not_return", 1)
 		r.Violation(c.Alg+"-build-hangs-"+cls,
 			fmt.Sprintf("NewMultiHashring(%s, RF=%d) with zone sizes %v did not return within %v (class %s; AZ spread capacity %d)",
@@ -439,7 +454,9 @@ func (k *checker) evalBuild(c Case, deferSuspects bool) {
 	switch {
 	case u.hung:
 		k.markHung("getn")
-		r.Violation("built-ring-getn-hangs", "GetN on the built ring did not return", c)
+		if k.verdict(u.site, "GetN on the built ring") {
+			r.Violation("built-ring-getn-hangs", "GetN on the built ring did not return", c)
+		}
 	case u.pan != nil:
 		r.Violation("built-ring-getn-panics", fmt.Sprintf("GetN on the built ring panicked: %v", u.pan), c)
 	case u.v != "":
@@ -473,6 +490,9 @@ func (k *checker) evalShard(c Case, deferSuspects bool) {
 	if tw.hung || tw.pan != nil {
 		if tw.hung {
 			k.markHung(classOf(c.Zones, 1))
+			if !k.verdict(tw.site, "RF=1 twin NewMultiHashring") {
+				return
+			}
 		}
 		r.Violation("shard-twin-rf1-build-fails", fmt.Sprintf("RF=1 twin: hung=%v panic=%v", tw.hung, tw.pan), c)
 		return
@@ -492,6 +512,9 @@ func (k *checker) evalShard(c Case, deferSuspects bool) {
 		if sn.hung || sn.pan != nil {
 			if sn.hung {
 				k.markHung("shard-selection")
+				if !k.verdict(sn.site, "RF=1 twin getTenantShard") {
+					return
+				}
 			}
 			r.Violation("shard-twin-rf1-selection-fails", fmt.Sprintf("RF=1 twin getTenantShard: hung=%v panic=%v", sn.hung, sn.pan), c)
 			return
@@ -523,6 +546,9 @@ func (k *checker) evalShard(c Case, deferSuspects bool) {
 	if o.hung {
 		// the base ring of a shard case is of a class that part "build" covers; record it under that signature
 		k.markHung(bc)
+		if !k.verdict(o.site, "NewMultiHashring (shuffle sharded)") {
+			return
+		}
 		r.Violation("ketama-build-hangs-"+bc, fmt.Sprintf("NewMultiHashring (shuffle sharded) with zone sizes %v RF=%d did not return within %v", c.Zones, c.RF, k.allow()), c)
 		return
 	}
@@ -549,6 +575,8 @@ func (k *checker) evalShard(c Case, deferSuspects bool) {
 		return "ok"
 	})
 	switch {
+	case g.hung && !k.verdict(g.site, "GetN on a shuffle-sharded ring"):
+		k.markHung(cls)
 	case g.hung:
 		k.markHung(cls)
 		r.Add("constructions_that_did_not_return", 1)
@@ -590,7 +618,7 @@ func TestCheck(t *testing.T) {
 		"then GetN for every replica index on the built ring; part shard: every such layout with <= %d endpoints whose base ring is constructible x RF x shard size 1..n x "+
 		"zone awareness on/off x %d tenants, first GetN of the tenant (builds the tenant's sub-ring). Non-trivial = ketama with >= 2 zones (sub-ring zones for part shard) and RF >= 2, "+
 		"i.e. the even-AZ-spread rule of calculateSectionReplicas takes part in the construction", maxN, maxShardN, nTenants))
-	r.Assume("non-termination inside calculateSectionReplicas is decided deterministically by loop ticks (a loop iterating more than RF x sections times without its enclosing loop advancing can never end); any other hang would only be caught by the safety net: non-termination is decided by a generous real-time allowance (20 s in the serial phases where terminating calls take milliseconds, 120 s while all cores are busy, against about 1 s for the slowest terminating call); there is no countable seam in calculateSectionReplicas and /repo is not instrumented",
+	r.Assume("non-termination inside calculateSectionReplicas is decided deterministically by loop ticks (a loop iterating more than RF x sections times without its enclosing loop advancing can never end); a call that does not return within the wall-clock safety net (20 s serial, 120 s parallel) without exceeding a loop-tick budget is NOT a verdict: it is recorded as a cap (exhaustive=false) and the cases of its class are left undecided",
 		"after the first configuration of a class does not return, the remaining configurations of that class are not run (recorded as a cap); classes are decided from the configuration alone",
 		"RF = 0 (not a valid replication factor) and hashrings without endpoints are outside the space")
 	installTicks()
